@@ -91,9 +91,35 @@ Definition f64_of_Z (z : Z) : f64 := binary_normalize prec emax z 0 false.
 Definition is_finite (f : f64) : bool :=
   match f with S754_zero _ | S754_finite _ _ _ => true | _ => false end.
 
-Definition f64_eqb (a b : f64) : bool := SFeqb a b.     (* Rust == on f64 *)
-Definition f64_ltb (a b : f64) : bool := SFltb a b.     (* Rust <  *)
-Definition f64_leb (a b : f64) : bool := SFleb a b.     (* Rust <= *)
+(** Rust's ==, <, <= on f64: comparison of the real values (NaN is unordered, -0 = +0).
+    Finite values are compared exactly by scaling both mantissas to the smaller exponent. *)
+Definition f64_scaled (f : f64) : Z * Z :=       (* (signed mantissa, exponent); zero is (0, 0) *)
+  match f with
+  | S754_finite s m e => (if s then Z.neg m else Z.pos m, e)
+  | _ => (0, 0)
+  end.
+
+Definition f64_compare (a b : f64) : option comparison :=
+  match a, b with
+  | S754_nan, _ | _, S754_nan => None
+  | S754_infinity s1, S754_infinity s2 =>
+      Some (match s1, s2 with
+            | true, true | false, false => Eq
+            | true, false => Lt
+            | false, true => Gt
+            end)
+  | S754_infinity s, _ => Some (if s then Lt else Gt)
+  | _, S754_infinity s => Some (if s then Gt else Lt)
+  | _, _ =>
+      let '(ma, ea) := f64_scaled a in
+      let '(mb, eb) := f64_scaled b in
+      let e := Z.min ea eb in
+      Some (Z.compare (ma * 2 ^ (ea - e)) (mb * 2 ^ (eb - e)))
+  end.
+
+Definition f64_eqb (a b : f64) : bool := match f64_compare a b with Some Eq => true | _ => false end.
+Definition f64_ltb (a b : f64) : bool := match f64_compare a b with Some Lt => true | _ => false end.
+Definition f64_leb (a b : f64) : bool := match f64_compare a b with Some Lt | Some Eq => true | _ => false end.
 
 (** Bit-level identity of floats (for comparing model and implementation). *)
 Definition f64_same (a b : f64) : bool :=
